@@ -84,6 +84,9 @@ Proof.
   - exists []. reflexivity.
 Qed.
 
+Lemma last_end_snoc : forall l c, last_end (l ++ [c]) = cend c.
+Proof. intros. unfold last_end. rewrite rev_app_distr. reflexivity. Qed.
+
 (* sendToConnection *)
 Lemma send_gen : forall S i c h used r0 sid nc kn a,
   zlen S < HIS ->
@@ -97,6 +100,7 @@ Lemma send_gen : forall S i c h used r0 sid nc kn a,
     h_saved (sr_half r) = saved2 /\ h_queue (sr_half r) = q1 /\
     h_next (sr_half r) = h_next h /\ h_closed (sr_half r) = h_closed h /\
     a + clen r0 <= e' /\ e' <= zlen S /\ 0 <= A' <= a /\
+    (h_queue h = [] -> sr_end r = cend r0) /\
     qok S i (e' + 1) HIS q1 /\
     sok S i (if (0 <=? k) && (k <? e' - A') then A' + k else e') e' saved2.
 Proof.
@@ -135,5 +139,8 @@ Proof.
       rewrite Hnx, sq_not_invalid. unfold diffv. cbn [v_diff fullv].
       apply diff_sq. unfold HIS, HALFW in *. lia.
     - destruct Hk as (Hnx & _). rewrite Hnx. reflexivity. }
-  repeat split; try reflexivity; try lia; try assumption.
+  split; [reflexivity|]. split; [reflexivity|]. split; [reflexivity|]. split; [reflexivity|].
+  split; [lia|]. split; [lia|]. split; [lia|]. split; [|split; assumption].
+  intros Hq0. rewrite Hq0 in Hcl. cbn [contig_loop] in Hcl. inversion Hcl; subst tk.
+  cbn [map]. apply last_end_snoc.
 Qed.
